@@ -146,5 +146,8 @@ if __name__ == '__main__':
     elif sys.argv[1] == 'import6':
         for pid in sys.argv[2:]:
             do_import(pid, '/tmp/mut6', ('K', 'L'))
+    elif sys.argv[1] == 'import7':
+        for pid in sys.argv[2:]:
+            do_import(pid, '/tmp/mut7', ('M', 'N'))
     elif sys.argv[1] == 'run':
         sys.exit(do_run(sys.argv[2], sys.argv[3:]))
